@@ -1,17 +1,12 @@
 /-
-Fuel-consumption records (`feems/fuel.py`): `FuelConsumption.__add__`, `__mul__`,
-`total_fuel_consumption`, `fuel_by_mass_fraction`, the tank-to-wake / well-to-tank
-formulas and the mix rule of `FuelByMassFraction.get_kg_co2_per_kg_fuel`.
-
-A record is the *list* the code manipulates (so that an algorithmic slip such as
-matching one right-hand entry twice is visible), over an arbitrary mass type `M`:
-`Rat` for scalar masses, functions / vectors for time series (numpy arithmetic is
-element-wise, so a series operation is the scalar one at every step — that is what the
-correspondence checks and what the generic theorems cover).
+Fuel-consumption records (`feems/fuel.py`): the record type, `fuel_by_mass_fraction`, the
+tank-to-wake / well-to-tank formulas and the mix rule of
+`FuelByMassFraction.get_kg_co2_per_kg_fuel`.  `__add__`, `__mul__`, totals: `KeyedList.lean`.
 -/
-import FeemsModel.Model.Basic
+import FeemsModel.Model.KeyedList
 
 namespace Feems.Fuel
+export Feems.KV (kinds total massOf firstOf addMatched addRest add addSpec scale WellFormed)
 
 /-- What `__add__` matches on: fuel type, origin and `fuel_specified_by` (enum numbers). -/
 structure Kind where
@@ -20,52 +15,11 @@ structure Kind where
   spec : Nat
   deriving DecidableEq, Repr
 
-abbrev Rec (M : Type) := List (Kind × M)
-
-variable {M : Type}
-
-def kinds (r : Rec M) : List Kind := r.map (·.1)
-
-/-- `np.sum([fuel.mass for fuel in fuels], axis=0)`. -/
-def total [Add M] [Zero M] (r : Rec M) : M := r.foldr (fun e acc => e.2 + acc) 0
-
-/-- Mass of one kind (sum over the entries of that kind; at most one in a well-formed record). -/
-def massOf [Add M] [Zero M] (k : Kind) (r : Rec M) : M :=
-  total (r.filter (fun e => e.1 = k))
-
-/-- First entry of `b` with the kind `k`: `next(filter(lambda x: same kind, other.fuels))`. -/
-def firstOf (k : Kind) (b : Rec M) : Option (Kind × M) := b.find? (fun e => e.1 = k)
-
-/-- The loop over `self.fuels`: add the first matching entry of `other`, else copy. -/
-def addMatched [Add M] (a b : Rec M) : Rec M :=
-  a.map (fun e => match firstOf e.1 b with
-    | some e' => (e.1, e.2 + e'.2)
-    | none => e)
-
-/-- The loop over `other.fuels`: keep the entries whose *index* was not matched.  An entry was
-matched iff its kind occurs in `self` and it is the first of its kind in `other`
-(`seen` = kinds of the entries of `other` before this one). -/
-def addRest (aks : List Kind) : List Kind → Rec M → Rec M
-  | _, [] => []
-  | seen, e :: b =>
-    if e.1 ∈ aks ∧ e.1 ∉ seen then addRest aks (e.1 :: seen) b
-    else e :: addRest aks (e.1 :: seen) b
-
-/-- `FuelConsumption.__add__` (`fuel.py:590-616`). -/
-def add [Add M] (a b : Rec M) : Rec M :=
-  if a.isEmpty then b else addMatched a b ++ addRest (kinds a) [] b
-
-/-- `FuelConsumption.__mul__`: every mass times the factor. -/
-def scale [Mul M] (r : Rec M) (c : M) : Rec M := r.map (fun e => (e.1, e.2 * c))
+abbrev Rec (M : Type) := KV.Rec Kind M
 
 /-- `fuel_by_mass_fraction` for a scalar record: empty when nothing was consumed. -/
 def fractions (r : Rec Rat) : Rec Rat :=
   if total r = 0 then [] else r.map (fun e => (e.1, e.2 / total r))
-
-/-- A record never lists one kind twice. -/
-def WellFormed (r : Rec M) : Prop := (kinds r).Nodup
-
-instance (r : Rec M) : Decidable (WellFormed r) := inferInstanceAs (Decidable (List.Nodup _))
 
 /-! ### Greenhouse-gas factors -/
 
